@@ -3,6 +3,7 @@ package mc
 import (
 	"context"
 	"fmt"
+	"os"
 	"sort"
 	"strings"
 
@@ -701,6 +702,9 @@ func replayE1(rc *RunCtx, rep *Report, scs []*Scenario) {
 				fmt.Printf("%3d %-28s effects=%v err=%q tokens=%v dev=%v\n", i, t.String(), res.Writes, res.Err, toks, res.DevLog)
 			} else {
 				fmt.Printf("%3d %-28s\n", i, t.String())
+			}
+			if os.Getenv("VERIF_DEBUG") != "" {
+				fmt.Println("      " + strings.ReplaceAll(strings.TrimSpace(x.W.StoreCanon()), "\n", "\n      "))
 			}
 		})
 		fmt.Println(x.W.Canon())
